@@ -20,7 +20,23 @@ def h(t, part):
             from harness import c07
             kw['client_manager'] = c07.make_manager(False, [])
         w = worlds.SWorld(False, async_handlers=False, **kw)
-        sched = baton.Sched(lambda n: t.choice(n))
+        fine = part.get('fine')
+        if fine:
+            # every source line of these functions is a pre-emption point; at most part['preempt'] pre-emptions
+            from socketio import base_manager, manager, server as server_mod, pubsub_manager
+            fns = [base_manager.BaseManager.is_connected, base_manager.BaseManager.sid_from_eio_sid,
+                   base_manager.BaseManager.eio_sid_from_sid, base_manager.BaseManager.pre_disconnect,
+                   manager.Manager.can_disconnect, pubsub_manager.PubSubManager.can_disconnect]
+            if fine == 'all':
+                fns += [base_manager.BaseManager.basic_disconnect, base_manager.BaseManager.basic_leave_room,
+                        base_manager.BaseManager.get_namespaces, base_manager.BaseManager.get_rooms,
+                        manager.Manager.disconnect,
+                        server_mod.Server.disconnect, server_mod.Server._handle_disconnect,
+                        server_mod.Server._handle_eio_disconnect, server_mod.Server._trigger_event]
+            sched = baton.Sched(lambda n: t.choice(n), max_decisions=3000,
+                                fine_codes=[getattr(f, '__code__') for f in fns], preempt_budget=part['preempt'])
+        else:
+            sched = baton.Sched(lambda n: t.choice(n))
 
         def on_disconnect(sid, reason):
             sched.point('handler')
@@ -32,7 +48,8 @@ def h(t, part):
         sid = w.connect('e0', '/')
         sid_a = w.connect('e0', '/a')
         real_mgr, real_eio = w.s.manager, w.s.eio
-        w.s.manager = baton.Proxy(real_mgr, sched, 'mgr', skip=('_get_logger',))
+        w.s.manager = baton.Proxy(real_mgr, sched, 'mgr', skip=('_get_logger',),
+                                  rets=('is_connected', 'can_disconnect', 'pre_disconnect', 'disconnect') if fine else ())
         if part.get('eio_points', True):
             w.s.eio = baton.Proxy(real_eio, sched, 'eio')
         if part.get('inner_points'):
@@ -68,6 +85,8 @@ def h(t, part):
     t.note(acts, 'decisions', sched.decisions, 'switches', sched.switches)
     mode = 'sequential' if sched.switches == 0 else 'interleaved'
     pair = '||'.join(sorted(acts))
+    if fine:
+        mode, pair = 'line-level', 'any'      # (fine partitions: the pair is in the replay file, not in the signature)
     # the one known defect (F6): two threads both pass the is-connected check of one sid before either marks it
     # (pre_disconnect). Violations on such schedules carry the window in their signature; any other is new.
     # a call recorded at a pre-emption point executes when its thread is next resumed, i.e. just before that
@@ -77,7 +96,31 @@ def h(t, part):
     for j, x in enumerate(tr):
         nxt = next((k for k in range(j + 1, len(tr)) if tr[k][0] == x[0]), len(tr) + j)
         exec_at.append(nxt)
-    for S in (sid, sid_a):
+    if fine:
+        # the same known defect under line-level pre-emption: a thread whose check *started* before the first mark
+        # of that sid was set, and which got its answer before the marking thread's manager.disconnect() returned,
+        # passes too. A second pass outside that window (check started after the mark, or answered after the
+        # first termination was complete) is something else.
+        for S in (sid, sid_a):
+            ix = lambda lab, pred=lambda x: True: [j for j, x in enumerate(tr) if x[1] == lab and S in x[2] and pred(x)]
+            marks = ix('ret:mgr.pre_disconnect')
+            if not marks:
+                continue
+            first_mark = marks[0]
+            marker = tr[first_mark][0]
+            done = next((j for j in ix('ret:mgr.disconnect') if tr[j][0] == marker), len(tr))
+            passers = set()
+            outside = False
+            for lab in ('mgr.is_connected', 'mgr.can_disconnect'):
+                for j in ix('ret:' + lab, lambda x: x[3] is True):
+                    th = tr[j][0]
+                    start = max(k for k in ix('call:' + lab) if k < j and tr[k][0] == th)
+                    passers.add(th)
+                    if th != marker and not (start < first_mark and j < done):
+                        outside = True
+            if len(passers) >= 2:
+                mode, pair = ('double-pass-before-mark', 'any') if not outside else ('pass-outside-the-window', 'any')
+    for S in (() if fine else (sid, sid_a)):
         marks = [exec_at[j] for j, x in enumerate(tr) if x[1] == 'mgr.pre_disconnect' and S in x[2]]
         if marks:
             first_mark = min(marks)
@@ -99,7 +142,16 @@ def h(t, part):
         return Fail('race:%s:%s:stuck' % (mode, pair), repr(sched.trace[-6:]))
     excs = [(x['name'], x['exc']) for x in sched.ws if x['exc'] is not None]
     if excs:
-        return Fail('race:%s:%s:exception:%s' % (mode, pair, type(excs[0][1]).__name__),
+        where = ''
+        if fine and mode == 'line-level':
+            # which function of the library raised (line-level pre-emption tears the look-ups themselves)
+            tb, fn = excs[0][1].__traceback__, '?'
+            while tb is not None:
+                if '/socketio/' in tb.tb_frame.f_code.co_filename:
+                    fn = tb.tb_frame.f_code.co_name
+                tb = tb.tb_next
+            where = '@' + fn
+        return Fail('race:%s:%s:exception:%s%s' % (mode, pair, type(excs[0][1]).__name__, where),
                     'thread %s raised %r; trace %r' % (excs[0][0], excs[0][1], sched.trace))
     n = len([c for c in calls if c[0] == sid])
     if n != 1:
@@ -137,6 +189,15 @@ def parts(tier):
             for p in (['server.disconnect', 'server.disconnect'], ['server.disconnect', 'client-DISCONNECT'],
                       ['server.disconnect', 'transport-loss'])
             for a in (0, 1) for b in (0, 1) for c in (0, 1)]
+    # line-level pre-emption inside the manager's look-ups (is_connected, sid_from_eio_sid, eio_sid_from_sid,
+    # can_disconnect, pre_disconnect), at most two pre-emptions per schedule (context bound), exhaustive
+    fine_pairs = [['server.disconnect', 'client-DISCONNECT'], ['server.disconnect', 'transport-loss'],
+                  ['client-DISCONNECT', 'transport-loss'], ['server.disconnect', 'server.disconnect'],
+                  ['client-DISCONNECT', 'client-DISCONNECT']]
+    out += [dict(acts=p, pre=[a], eio_points=False, fine='lookups', preempt=2) for p in fine_pairs for a in (0, 1)]
+    if tier == 'thorough':
+        out += [dict(acts=p, pre=[a], eio_points=False, fine='all', preempt=2) for p in fine_pairs for a in (0, 1)]
+        out += [dict(acts=p, pre=[a], eio_points=False, fine='lookups', preempt=3) for p in fine_pairs for a in (0, 1)]
     if tier == 'thorough':
         main_pairs = [['server.disconnect', 'client-DISCONNECT'], ['server.disconnect', 'transport-loss'],
                       ['client-DISCONNECT', 'transport-loss'], ['server.disconnect', 'server.disconnect']]
